@@ -2,6 +2,7 @@
 package c02
 
 import (
+	"sort"
 	"github.com/apache/skywalking-banyandb/banyand/internal/verif/simknobs"
 	"fmt"
 	"testing"
@@ -139,5 +140,39 @@ func check(e *simcore.Env, n *simnode.Node, m *wl.MeasureModel, where string) {
 	e.Event("%s: query -> %d points", where, len(resp.GetDataPoints()))
 	if cls, msg := m.Mismatch(resp.GetDataPoints(), p, nil); cls != "" {
 		e.Fail("version-wins", cls, "%s: %s", where, msg)
+		return
+	}
+	// the same winner through narrow time ranges: exactly a contested timestamp, and the span of all contested ones
+	// (part- and block-level time pruning must not hide the part that holds the highest version)
+	perTs := map[int64]int{}
+	for _, r := range m.Rows {
+		perTs[r.Ts]++
+	}
+	var contested []int64
+	for ts, k := range perTs {
+		if k > 1 {
+			contested = append(contested, ts)
+		}
+	}
+	sort.Slice(contested, func(i, j int) bool { return contested[i] < contested[j] })
+	if len(contested) == 0 {
+		return
+	}
+	ranges := [][2]int64{{contested[0], contested[0]}, {contested[len(contested)-1], contested[len(contested)-1]}, {contested[0], contested[len(contested)-1]}}
+	for i, rg := range ranges {
+		if i > 0 && rg == ranges[i-1] {
+			continue
+		}
+		a, b := rg[0], rg[1]
+		resp, err = n.QueryMeasure(m.S.QueryRequest(a, b, p, 1000000))
+		if err != nil {
+			e.Fail("query", "query-error", "%s: query [%d,%d] failed: %v", where, a, b, err)
+			return
+		}
+		e.Probe("reach.narrow_range_query")
+		if cls, msg := m.Mismatch(resp.GetDataPoints(), p, func(r *wl.MRow) bool { return r.Ts >= a && r.Ts <= b }); cls != "" {
+			e.Fail("version-wins", cls+":narrow-range", "%s, range [%d,%d]: %s", where, a, b, msg)
+			return
+		}
 	}
 }
